@@ -46,7 +46,9 @@ def ordered(fields):
     return sorted(fields, key=lambda fd: fd["hasdef"])
 
 
-def build(style, fields):
+def build(style, fields, positional=False):
+    """positional (class style only): the signature is added with as_positional=True, which declares the REQUIRED
+    parameters as positionals `g.<name>` instead of options `--g.<name>`: the same group for every channel but argv"""
     import dataclasses
 
     from jsonargparse import ActionParser, ArgumentParser
@@ -90,7 +92,7 @@ def build(style, fields):
         exec(compile(src, "<generated class K>", "exec", dont_inherit=True), ns)  # no postponed annotations
         K = ns["K"]
         K.__module__ = __name__
-        p.add_class_arguments(K, "g")
+        p.add_class_arguments(K, "g", as_positional=True) if positional else p.add_class_arguments(K, "g")
     return p
 
 
@@ -173,7 +175,7 @@ def run_case(case):
                 del os.environ[k]
         for style in STYLES:
             try:
-                p = build(style, fields)
+                p = build(style, fields, positional=(style == "class" and chan != "argv" and variant % 3 == 2))
             except Exception as ex:
                 outs.append({"style": style, "ok": False, "cfg": None, "escaped": "build:" + type(ex).__name__, "msg": str(ex)[:200]})
                 continue
